@@ -319,6 +319,7 @@ def _resolve_undecided(prop, tier, fn, level, ctx0):
     trials = [frozenset([h]) for h in rel[:6]]
     if len(rel) > 1:
         trials.append(frozenset(rel[:6]))
+    first = None      # the first view that decides more (or shows a violation): adopted unless a later view decides everything
     for trial in trials:
         if time.time() - t0 > float(os.environ.get("JL_INLINE_BUDGET", "240")):
             break
@@ -327,12 +328,14 @@ def _resolve_undecided(prop, tier, fn, level, ctx0):
             continue
         if not c.viol and len(c.undecided) < len(ctx0.undecided):
             c.notes.append("decided on a behaviour-preserving view of the program (private helper functions inlined at their call sites: %s); the program as written left %d clause instance(s) unread" % (", ".join(c.inline_set), len(ctx0.undecided)))
-            return c
-        if c.viol and any(v["clause"] in und_clauses for v in c.viol):
+            if not c.undecided:
+                return c          # everything decided, nothing violated: a view that inlines less and leaves something unread (or reads it as a violation for want of the other helper) does not count against it
+            first = first or c
+        elif c.viol and any(v["clause"] in und_clauses for v in c.viol):
             c.viol = [v for v in c.viol if v["clause"] in und_clauses]
             c.notes.append("reported on the view of the program with %s inlined at their call sites: the program as written left these clause instances unread, the view shows the construct" % ", ".join(c.inline_set))
-            return c
-    return None
+            first = first or c
+    return first
 
 
 def _helper_views(prop, tier, fn, level, ctx0):
